@@ -285,6 +285,122 @@ def case_ome(log, morder, method):
     log.path_stats(pm)
 
 
+class _AsmKB:
+    def __init__(self, kind):
+        self.is_singlet = kind in ("qcd", "ome")
+        self.is_QEDsinglet = kind == "qed"
+        self.is_QEDvalence = False
+        self.n = SR.var("N")
+
+    def integrand(self, areas):
+        return 1
+
+
+def case_assembled(log, kind):
+    """The operator is assembled element by element: quad_ker_qcd / quad_ker_qed / quad_ker_ome are asked for one (mode0, mode1) pair
+    at a time and pick it with the element selectors.  With a sum-rule-respecting kernel handed back by the (stubbed) dispatcher /
+    OME tower, the assembled matrix sum_{mode0} E[mode0, mode1] must again give the conserved vector -- rows and columns in the
+    documented label order, no transposition."""
+    qk = sym_module("eko.evolution_operator.quad_ker")
+    import eko.scale_variations as svmod
+    from eko.kernels import EvoMethods
+
+    rp = (MOD, "replay_assembled", {"kind": kind})
+    key = "assembled.%s:sumrule" % kind
+    log.register_replay(key, rp, _sampler)
+    labels, v = {"qcd": ((100, 21), (1, 1)), "qed": ((21, 22, 100, 101), (1, 1, 1, 0)), "ome": ((21, 100, 90), (1, 1, 1))}[kind]
+    dim = len(labels)
+    log.encode({"qcd": qk.quad_ker_qcd, "qed": qk.quad_ker_qed, "ome": qk.quad_ker_ome}[kind],
+               {"qcd": qk.select_singlet_element, "qed": qk.select_QEDsinglet_element, "ome": qk.build_ome}[kind])
+
+    def run():
+        saved = []
+
+        def patch(obj, attr, val):
+            saved.append((obj, attr, getattr(obj, attr)))
+            setattr(obj, attr, val)
+
+        a_s = SR.var("a_s")
+        assume(a_s, ">0")
+        I = realnp.eye(dim, dtype=int).astype(object)
+        # the conserved vector in the order the kernel modules use internally
+        internal = {"qcd": (100, 21), "qed": (21, 22, 100, 101), "ome": (21, 100, 90)}[kind]
+        K = constrained("k", dim, v) + I
+        E = realnp.empty((dim, dim), dtype=object)
+        try:
+            if kind == "qcd":
+                patch(qk.ad_us, "gamma_singlet", lambda *a, **k: "gamma-token")
+                patch(qk.s, "dispatcher", lambda *a, **k: K.copy())
+            elif kind == "qed":
+                patch(qk.ad_us, "gamma_singlet_qed", lambda *a, **k: "gamma-token")
+                patch(qk.qed_s, "dispatcher", lambda *a, **k: K.copy())
+            else:
+                A = realnp.array([constrained("A%d" % k, dim, v) for k in range(3)], dtype=object)
+                patch(qk, "QuadKerBase", lambda u, is_log, logx, mode0: _AsmKB("ome"))
+                patch(qk.ome_us, "A_singlet", lambda *a, **k: A.copy())
+            for i, m0 in enumerate(labels):
+                for j, m1 in enumerate(labels):
+                    if kind == "qcd":
+                        E[i, j] = qk.quad_ker_qcd(_AsmKB("qcd"), (2, 0), m0, m1, EvoMethods.ITERATE_EXACT, a_s, SR.var("a0"), 4, SR.var("L"), 1, (2, 0), svmod.Modes.unvaried, False, False, False, (0,) * 7, False)
+                    elif kind == "qed":
+                        E[i, j] = qk.quad_ker_qed(_AsmKB("qed"), (2, 1), m0, m1, EvoMethods.ITERATE_EXACT, [SR.var("a0"), a_s], SR.var("m0"), SR.var("m1"), realnp.array([[SR.var("ah"), SR.var("aem")]], dtype=object), False,
+                                                  4, SR.var("L"), 1, (2, 0), svmod.Modes.unvaried, False, (0,) * 7, False)
+                    else:
+                        E[i, j] = qk.quad_ker_ome(0.5, (3, 0), m0, m1, True, SR.var("logx"), ("areas",), a_s, 4, SR.var("Lh"), svmod.Modes.unvaried, SR.var("L"), None, False, False, False)
+        finally:
+            for obj, attr, val in reversed(saved):
+                setattr(obj, attr, val)
+        # v is given in the order of `labels`
+        _vE(log, E, v, "operator assembled from single elements (%s)" % kind, key, rp)
+        log.twin("domain")
+        log.collect_ctx()
+
+    _r, pm = explore(run)
+    log.path_stats(pm)
+
+
+def replay_assembled(point, kind):
+    import importlib
+    from unittest import mock
+    import numpy as np
+    import eko.scale_variations as svmod
+    from eko.kernels import EvoMethods
+
+    qk = importlib.import_module("eko.evolution_operator.quad_ker")
+    labels, v = {"qcd": ((100, 21), (1, 1)), "qed": ((21, 22, 100, 101), (1, 1, 1, 0)), "ome": ((21, 100, 90), (1, 1, 1))}[kind]
+    dim = len(labels)
+    rng = np.random.default_rng(3)
+    K = _rand_constrained(rng, dim, v) + np.eye(dim)
+    A = np.array([_rand_constrained(rng, dim, v) for _ in range(3)])
+
+    class KB:
+        def __init__(self, *a):
+            self.is_singlet, self.is_QEDsinglet, self.is_QEDvalence, self.n = kind in ("qcd", "ome"), kind == "qed", False, 2.0 + 0.5j
+
+        def integrand(self, areas):
+            return 1.0
+
+    E = np.zeros((dim, dim), dtype=complex)
+    with mock.patch.object(qk.ad_us, "gamma_singlet", lambda *a, **k: None), mock.patch.object(qk.s, "dispatcher", lambda *a, **k: K.copy()), \
+            mock.patch.object(qk.ad_us, "gamma_singlet_qed", lambda *a, **k: None), mock.patch.object(qk.qed_s, "dispatcher", lambda *a, **k: K.copy()), \
+            mock.patch.object(qk, "QuadKerBase", KB), mock.patch.object(qk.ome_us, "A_singlet", lambda *a, **k: A.copy()):
+        for i, m0 in enumerate(labels):
+            for j, m1 in enumerate(labels):
+                if kind == "qcd":
+                    E[i, j] = qk.quad_ker_qcd(KB(), (2, 0), m0, m1, EvoMethods.ITERATE_EXACT, 0.02, 0.03, 4, 0.0, 1, (2, 0), svmod.Modes.unvaried, False, False, False, (0,) * 7, False)
+                elif kind == "qed":
+                    E[i, j] = qk.quad_ker_qed(KB(), (2, 1), m0, m1, EvoMethods.ITERATE_EXACT, np.array([0.03, 0.02]), 10.0, 100.0, np.array([[0.025, 0.0007]]), False, 4, 0.0, 1, (2, 0), svmod.Modes.unvaried, False, (0,) * 7, False)
+                else:
+                    # quad_ker_ome returns Re(element * integrand): use a real tower
+                    E[i, j] = qk.quad_ker_ome(0.5, (3, 0), m0, m1, True, -1.0, None, 0.03, 4, 0.0, svmod.Modes.unvaried, 0.0, None, False, False, False)
+    # quad_ker_ome returns Re(element * integrand): the real parts of the columns of a sum-rule-respecting matrix still sum to v
+    col = np.array([sum(E[i, j] * v[i] for i in range(dim)) for j in range(dim)])
+    want = np.array(v, dtype=float)
+    if np.abs(col.real - want).max() > 1e-9:
+        return {"detail": "operator assembled element by element (%s): sum over mode0 of E[mode0, mode1] = %r for mode1 = %r, conserved vector %r" % (kind, col.real.tolist(), list(labels), list(v))}
+    return None
+
+
 # ---------------------------------------------------------------------------
 def _sampler(rng):
     return {"a0": rnd(rng, 0.005, 0.04), "a1": rnd(rng, 0.005, 0.04), "a_s": rnd(rng, 0.005, 0.04), "a_em": rnd(rng, 0.0005, 0.005, 10000), "L": rnd(rng, -2, 2)}
@@ -418,6 +534,8 @@ def main():
             chk.case("sv.qcd.o%d.nf%d" % (o, nf), case_sv, order=(o, 0), nf=nf, qed=False)
         for od in ((1, 1), (2, 2), (3, 2), (4, 2)):
             chk.case("sv.qed.o%d%d.nf%d" % (od[0], od[1], nf), case_sv, order=od, nf=nf, qed=True)
+    for kind in ("qcd", "qed", "ome"):
+        chk.case("assembled.%s" % kind, case_assembled, kind=kind)
     for mo in (0, 1, 2, 3):
         for mth in ("FORWARD", "BACKWARD_EXPANDED", "BACKWARD_EXACT"):
             chk.case("ome.%s.o%d" % (mth, mo), case_ome, morder=mo, method=mth)
